@@ -16,6 +16,10 @@ IndexError can occur; `GErr.fuel` occurs on neither side for the fuel stated.
 
 Proofs: `Verif/Proofs/FilterGen*.lean`.  Axioms: propext, Classical.choice, Quot.sound.
 See design_notes/py2lean_filter.md.
+
+Domain caveat (third statement audit, F1): `tie_from_string` is stated for every list of code points, like `C15.total`; a Python `str` can
+also hold lone surrogates outside U+DC80..DCFF, for which `.encode("utf-8", "surrogateescape")` raises UnicodeEncodeError before parsing starts
+(the model's `utf8Encode` is total), and numbers >= 0x110000 are no `str` at all.  Both are outside the text domain (DESIGN.md §2 item 5).
 -/
 import Verif.Proofs.FilterGenTop
 
